@@ -133,6 +133,17 @@ func (s *State) Heap(name, sort string) Term {
 			return pv
 		}
 		t = u.W.Fresh(name+"@"+s.gen.tag, sort)
+		if strings.HasPrefix(name, "G.") && !strings.HasPrefix(sort, "(Array Ptr ") {
+			// ghost map keyed by something other than a pointer: either the whole map may change
+			// (it is in the frame) or none of it
+			if s.gen.writable != nil {
+				if w := s.gen.writable(name, Term{"p!f", SPtr}); w.S == "false" {
+					u.Assume(s.gen.guard, Eq(t, pv))
+				}
+			}
+			s.heaps[name] = t
+			return t
+		}
 		if s.gen.writable != nil {
 			p := Term{"p!f", SPtr}
 			w := s.gen.writable(name, p)
